@@ -99,6 +99,7 @@ fn base_inv(lang: &str, mode: Mode, config: String) -> Inv {
         src_age: 0,
         roots: vec![],
         out_sub: String::new(),
+        obstacle: 0,
     }
 }
 
@@ -110,6 +111,12 @@ fn gen_opts_for(lang: &str, r: &mut Rng, tier: Tier) -> GenOpts {
         o.max_items = 10;
     }
     o.max_crates = r.range(1, 4) as usize;
+    // rarely a wide tree: more files than the channel holds at its shipped capacity
+    if r.chance(1, 250) {
+        o.max_files = 260;
+        o.max_items = 180;
+        o.max_crates = r.range(1, 3) as usize;
+    }
     o
 }
 
@@ -467,6 +474,9 @@ pub fn gen_c07(r: &mut Rng, tier: Tier) -> Case {
         }
         if r.chance(1, 12) {
             inv.extra.push("--follow-links".into());
+        }
+        if r.chance(1, 30) {
+            inv.obstacle = 1;
         }
         match r.below(16) {
             0 => {
